@@ -662,4 +662,94 @@ theorem tie_moncUpdateOneFacts : moncUpdateOneFacts = [
   "return nil, err",
   "return res, nil"] := by rfl
 
+/-! ### round 3: IsNotFound and the context-free wrappers -/
+
+theorem tie_isNotFoundFacts : isNotFoundFacts = [
+  "return errors.Is(err, c.errNotFound)",
+  "call errors.Is(err, c.errNotFound)"] := by rfl
+
+theorem tie_clusterIsNotFoundFacts : clusterIsNotFoundFacts = [
+  "return errors.Is(err, cc.errNotFound)",
+  "call errors.Is(err, cc.errNotFound)"] := by rfl
+
+theorem tie_nodeWDelFacts : nodeWDelFacts = [
+  "return c.DelCtx(context.Background(), keys...)",
+  "call c.DelCtx(context.Background(), keys)"] := by rfl
+
+theorem tie_clusterWDelFacts : clusterWDelFacts = [
+  "return cc.DelCtx(context.Background(), keys...)",
+  "call cc.DelCtx(context.Background(), keys)"] := by rfl
+
+theorem tie_nodeWGetFacts : nodeWGetFacts = [
+  "return c.GetCtx(context.Background(), key, val)",
+  "call c.GetCtx(context.Background(), key, val)"] := by rfl
+
+theorem tie_clusterWGetFacts : clusterWGetFacts = [
+  "return cc.GetCtx(context.Background(), key, val)",
+  "call cc.GetCtx(context.Background(), key, val)"] := by rfl
+
+theorem tie_nodeWSetFacts : nodeWSetFacts = [
+  "return c.SetCtx(context.Background(), key, val)",
+  "call c.SetCtx(context.Background(), key, val)"] := by rfl
+
+theorem tie_clusterWSetFacts : clusterWSetFacts = [
+  "return cc.SetCtx(context.Background(), key, val)",
+  "call cc.SetCtx(context.Background(), key, val)"] := by rfl
+
+theorem tie_nodeWSetWithExpireFacts : nodeWSetWithExpireFacts = [
+  "return c.SetWithExpireCtx(context.Background(), key, val, expire)",
+  "call c.SetWithExpireCtx(context.Background(), key, val, expire)"] := by rfl
+
+theorem tie_clusterWSetWithExpireFacts : clusterWSetWithExpireFacts = [
+  "return cc.SetWithExpireCtx(context.Background(), key, val, expire)",
+  "call cc.SetWithExpireCtx(context.Background(), key, val, expire)"] := by rfl
+
+theorem tie_nodeWTakeFacts : nodeWTakeFacts = [
+  "return c.TakeCtx(context.Background(), val, key, query)",
+  "call c.TakeCtx(context.Background(), val, key, query)"] := by rfl
+
+theorem tie_clusterWTakeFacts : clusterWTakeFacts = [
+  "return cc.TakeCtx(context.Background(), val, key, query)",
+  "call cc.TakeCtx(context.Background(), val, key, query)"] := by rfl
+
+theorem tie_nodeWTakeWithExpireFacts : nodeWTakeWithExpireFacts = [
+  "return c.TakeWithExpireCtx(context.Background(), val, key, query)",
+  "call c.TakeWithExpireCtx(context.Background(), val, key, query)"] := by rfl
+
+theorem tie_clusterWTakeWithExpireFacts : clusterWTakeWithExpireFacts = [
+  "return cc.TakeWithExpireCtx(context.Background(), val, key, query)",
+  "call cc.TakeWithExpireCtx(context.Background(), val, key, query)"] := by rfl
+
+theorem tie_sqlcWDelCacheFacts : sqlcWDelCacheFacts = [
+  "return cc.DelCacheCtx(context.Background(), keys...)",
+  "call cc.DelCacheCtx(context.Background(), keys)"] := by rfl
+
+theorem tie_sqlcWGetCacheFacts : sqlcWGetCacheFacts = [
+  "return cc.GetCacheCtx(context.Background(), key, v)",
+  "call cc.GetCacheCtx(context.Background(), key, v)"] := by rfl
+
+theorem tie_sqlcWExecFacts : sqlcWExecFacts = [
+  "return exec(conn)",
+  "return cc.ExecCtx(context.Background(), execCtx, keys...)",
+  "call cc.ExecCtx(context.Background(), execCtx, keys)"] := by rfl
+
+theorem tie_sqlcWQueryRowFacts : sqlcWQueryRowFacts = [
+  "return query(conn, v)",
+  "return cc.QueryRowCtx(context.Background(), v, key, queryCtx)",
+  "call cc.QueryRowCtx(context.Background(), v, key, queryCtx)"] := by rfl
+
+theorem tie_sqlcWQueryRowIndexFacts : sqlcWQueryRowIndexFacts = [
+  "return indexQuery(conn, v)",
+  "return primaryQuery(conn, v, primary)",
+  "return cc.QueryRowIndexCtx(context.Background(), v, key, keyer, indexQueryCtx, primaryQueryCtx)",
+  "call cc.QueryRowIndexCtx(context.Background(), v, key, keyer, indexQueryCtx, primaryQueryCtx)"] := by rfl
+
+theorem tie_sqlcWSetCacheFacts : sqlcWSetCacheFacts = [
+  "return cc.SetCacheCtx(context.Background(), key, val)",
+  "call cc.SetCacheCtx(context.Background(), key, val)"] := by rfl
+
+theorem tie_sqlcWSetCacheWithExpireFacts : sqlcWSetCacheWithExpireFacts = [
+  "return cc.SetCacheWithExpireCtx(context.Background(), key, val, expire)",
+  "call cc.SetCacheWithExpireCtx(context.Background(), key, val, expire)"] := by rfl
+
 end GoZero.C06.Tie
